@@ -164,8 +164,9 @@ outside `<dist>.data/` and `<dist>.dist-info/`, file scripts have distinct base 
 fix accd3ea), the prepared dist-info files are distinct and none is `RECORD`, and the two directory names are not
 nested.  Then the operation sequence of `build` (module files or .pth, file scripts, dist-info) satisfies
 `DistinctTargets`, hence (`record_each_once`) every member and every RECORD row occurs once.  The condition is no
-property of the code: `packages = [{include="pkg", from="a"}, {include="pkg", from="b"}]` or an include of
-`<dist>.dist-info/METADATA` violate it and the real builder then writes the member twice (replayed, see report). -/
+property of every configuration: `packages = [{include="pkg", from="a"}, {include="pkg", from="b"}]` or an include of
+`<dist>.dist-info/METADATA` violate it; the builder then refuses the second file (repo fix a8f41e9; before it wrote
+the member twice) — see `written_wheel_each_once`, `two_sources_refused`. -/
 theorem builder_distinct_targets (p : WheelPlan) (h : ConfigDistinct p) : DistinctTargets p.distInfo (wheelOps p) :=
   Poetry.Build.builder_distinct_targets p h
 
@@ -181,5 +182,68 @@ example : ConfigDistinct (⟨false, ["r"], [⟨["pkg", "a.py"], "pkg/a.py", 3318
 example : ¬ ConfigDistinct (⟨false, ["r"],
     [⟨["a", "pkg", "__init__.py"], "pkg/__init__.py", 33188, "H", 1⟩, ⟨["b", "pkg", "__init__.py"], "pkg/__init__.py", 33188, "G", 1⟩],
     "pkg", "", 0, [], ["d"], [⟨["METADATA"], 33188, "M", 3⟩], "x-1.0.dist-info", "x-1.0.data"⟩ : WheelPlan) := by decide
+
+/-- **Every wheel that is written lists each member once** — no condition on the configuration.  Since repo fix
+a8f41e9 `_add_file` and `_write_to_zip` refuse (RuntimeError) a name that is already in the archive; the guarded
+build `buildWheelC` therefore either fails or returns an archive whose member paths, and the first column of whose
+RECORD, are duplicate-free — and that archive is exactly what the bookkeeping (`buildWheel`) describes, so all the
+record theorems above apply to it. -/
+theorem written_wheel_each_once (H : String → String) (p : WheelPlan) (s : St) (h : buildWheelC H p = .ok s) :
+    (s.members.map (·.path)).Nodup ∧
+    ((recordRows p.distInfo (run {} (wheelOps p)).records).map (·.headD "")).Nodup ∧
+    s = buildWheel H p := by
+  obtain ⟨hd, rfl⟩ := (buildWheelC_ok_iff H p s).1 h
+  have := record_each_once H p.distInfo (wheelOps p) hd
+  exact ⟨this.1, this.2, rfl⟩
+
+/-- the same for *any* sequence of guarded writer calls, not only the builder's own -/
+theorem written_sequence_each_once (ops : List Op) (s : St) (h : runC {} ops = .ok s) :
+    (s.members.map (·.path)).Nodup ∧ s = run {} ops := by
+  obtain ⟨hn, rfl⟩ := (runC_ok_iff ops s).1 h
+  exact ⟨by rw [(record_invariant ops).2.2]; exact hn, rfl⟩
+
+/-- **When does the build succeed?**  Exactly when the targets of its own call sequence are pairwise distinct and none
+is RECORD (`DistinctTargets`); otherwise the first repeated name aborts it with RuntimeError. -/
+theorem build_succeeds_iff_distinct (H : String → String) (p : WheelPlan) :
+    (∃ s, buildWheelC H p = .ok s) ↔ DistinctTargets p.distInfo (wheelOps p) := by
+  constructor
+  · rintro ⟨s, h⟩; exact ((buildWheelC_ok_iff H p s).1 h).1
+  · intro h; exact ⟨_, (buildWheelC_ok_iff H p _).2 ⟨h, rfl⟩⟩
+
+theorem build_fails_with_runtime_error (H : String → String) (p : WheelPlan)
+    (h : ¬ DistinctTargets p.distInfo (wheelOps p)) : buildWheelC H p = .error .runtime := by
+  cases hb : buildWheelC H p with
+  | ok s => exact absurd ((buildWheelC_ok_iff H p s).1 hb).1 h
+  | error e =>
+    have : e = .runtime := by
+      unfold buildWheelC at hb
+      rw [runC_eq] at hb
+      by_cases hf : fresh (({} : St).members.map (·.path)) (wheelOps p) = true
+      · simp only [hf, if_true, writeRecordC, stepC] at hb
+        split at hb
+        · cases hb; rfl
+        · cases hb
+      · simp only [hf, Bool.false_eq_true, if_false] at hb
+        cases hb; rfl
+    rw [this]
+
+/-- the decidable condition on the configuration is sufficient for success (`builder_distinct_targets`) -/
+theorem config_distinct_builds (H : String → String) (p : WheelPlan) (h : ConfigDistinct p) :
+    ∃ s, buildWheelC H p = .ok s :=
+  (build_succeeds_iff_distinct H p).2 (Poetry.Build.builder_distinct_targets p h)
+
+/-- two selected files with one archive name (e.g. `packages = [{include="pkg", from="a"}, {include="pkg", from="b"}]`):
+the build is refused -/
+theorem two_sources_refused (H : String → String) (p : WheelPlan) (he : p.editable = false)
+    (hdup : ¬ (p.toAdd.map (·.target)).Nodup) : buildWheelC H p = .error .runtime := by
+  apply build_fails_with_runtime_error
+  rintro ⟨hn, _⟩
+  have hperm := wheelOps_targets_perm p
+  have hall := hperm.nodup_iff.1 hn
+  rw [List.nodup_append] at hall
+  have hb := (List.nodup_append.1 hall.1).1
+  unfold bodyTargets at hb
+  rw [he] at hb
+  exact hdup hb
 
 end Poetry.C01
